@@ -45,11 +45,11 @@ Qed.
 (* ------------------------------------------------------------------ *)
 (* the leaves                                                          *)
 (* ------------------------------------------------------------------ *)
-Lemma visit_st_pre_req n : req (visit_st_pre n) (fun _ => tn_id n <> None /\ tn_ctl n <> None).
+Lemma visit_st_pre_req n : req (visit_st_pre n) (fun _ => tn_id n <> None).
 Proof.
   intros v v' a H. unfold visit_st_pre in H. se_inv H. r_inv E.
   match goal with H : seg_append _ (tn_id n) = Ok _ |- _ => apply seg_append_ok in H as (x & -> & _) end.
-  destruct (tn_ctl n); [split; discriminate|discriminate].
+  discriminate.
 Qed.
 
 Lemma visit_seg_req n : req (visit_seg n) (fun _ => sn_seg_id n <> None /\ sn_seg_count n <> None).
@@ -86,7 +86,7 @@ Proof.
   intros v v' b H. unfold accept_st in H. apply bind_ok in H as (v1 & n & H1 & H2).
   apply (in_h_get h_st) in H1 as (_ & E1 & N1). exists n. split; [exact N1|]. rewrite <- E1.
   apply bind_ok in H2 as (v2 & u2 & H2 & H3). apply bind_ok in H3 as (v3 & u3 & H3 & H4).
-  destruct (visit_st_pre_req _ _ _ _ H2) as [A B].
+  pose proof (visit_st_pre_req _ _ _ _ H2) as A.
   pose proof (yields_keeps _ _ (visit_st_pre_yields n) _ _ _ H2) as K2.
   pose proof (req_iter _ (fun k h => idx_ok (h_seg h) (seg_printable h) k) _
                 (fun k => yields_keeps _ _ (accept_seg_yields k)) accept_seg_req _ _ _ H3) as C. rewrite K2 in C.
